@@ -77,9 +77,9 @@ M = [
      "        at_ub = xn > var_ub + 1e-12\n        xn[at_ub] = var_ub[at_ub]"),
     ("C05", "slack_start_not_clipped", "pygradflow/cons_problem.py",
      "            slack_val = np.clip(cons_val, lb_val, ub_val)",
-     "            slack_val = cons_val if abs(cons_val) < 1e-3 else np.clip(cons_val, lb_val, ub_val)"),
+     "            slack_val = cons_val"),
     # ---- C06
-    ("C06", "compute_step_swallow_narrowed", "pygradflow/step/step_control.py",
+    ("C07", "compute_step_swallow_narrowed", "pygradflow/step/step_control.py",
      "        except EvalError as e:\n            logger.warning(\"Evaluation error during step computation: %s\", e)\n            return fail_result()",
      "        except EvalError as e:\n            logger.warning(\"Evaluation error during step computation: %s\", e)\n            raise"),
     ("C06", "nan_result_on_timelimit", "pygradflow/solver.py",
@@ -112,9 +112,9 @@ M = [
     ("C09", "display_in_try_mutates", "pygradflow/solver.py",
      "                state[\"iter\"] = iteration + 1",
      "                state[\"iter\"] = iteration + 1\n                lamb = float(np.float32(lamb))"),
-    ("C09", "path_refs", "pygradflow/iterate.py",
-     "    def z(self):\n        return np.concatenate((self.x, self.y))",
-     "    def z(self):\n        return self.x if self.y.size == 0 else np.concatenate((self.x, self.y))"),
+    ("C09", "debug_level_changes_tolerance", "pygradflow/step/step_control.py",
+     "        level = logger.getEffectiveLevel()\n        if not self.display or level > logging.DEBUG:\n            return\n",
+     "        level = logger.getEffectiveLevel()\n        if not self.display or level > logging.DEBUG:\n            return\n        step.iterate.obj_grad.flags.writeable = True\n        step.iterate.obj_grad[...] = step.iterate.obj_grad * (1.0 + 1e-9)\n"),
     ("C09", "rcond_changes_solver", "pygradflow/step/solver/symmetric_step_solver.py",
      "            rcond = self.estimate_rcond(self.deriv, self.solver)\n\n        return (dx, dy, rcond)",
      "            rcond = self.estimate_rcond(self.deriv, self.solver)\n            if rcond is not None and rcond < 1e-12:\n                dx = 0.5 * dx\n\n        return (dx, dy, rcond)"),
@@ -135,9 +135,9 @@ M = [
     ("C11", "scaled_jac_inplace", "pygradflow/scale.py",
      "        jac = jac_orig.tocoo(copy=True)",
      "        jac = jac_orig.tocoo()"),
-    ("C11", "x0_scaled_inplace", "pygradflow/transform.py",
-     "            x = np.broadcast_to(x0, (orig_problem.num_vars,))",
-     "            x = np.broadcast_to(x0, (orig_problem.num_vars,))\n            if self.scaling is not None and isinstance(x0, np.ndarray) and x0.flags.writeable:\n                x0 *= 1.0 + 1e-16 + (x0 == 0.0)"),
+    ("C11", "cons_bounds_scaled_inplace", "pygradflow/scale.py",
+     "        cons_lb = np.ldexp(problem.cons_lb, scaling.cons_weights)",
+     "        cons_lb = np.ldexp(problem.cons_lb, scaling.cons_weights, out=problem.cons_lb)"),
     # ---- C12
     ("C12", "accepted_before_veto", "pygradflow/solver.py",
      "            if accept:\n                penalty_result = self.penalty_strategy.update(iterate, next_iterate)",
